@@ -25,6 +25,10 @@ CHECKS = {
    technique="explicit-state BFS to saturation over exact replica storage images, transitions executed by the real writer and replica (E2), plus live request sequences from saturated states",
    text="For each writer log shape (1..N blocks, singles/batch/mixed builds, cleared-block variants, growth rounds) all replica states reachable by well-formed requests are enumerated to saturation (unbounded request-order depth): from every state every upgrade target, block, hash-of-full-node and seek request is proved by the real writer and applied by the real replica. Oracle: a proof is returned (none iff the block is cleared on the writer), it is accepted, and replica info/has/get equal the replica model; the complete replica must be reachable. Live walks cover non-reopened sequences.",
    note="State = replica storage image after close (exact, no abstraction). Trusted: replica model, reference flat-tree arithmetic used to classify requests. Hash requests for a node straddling the replica length together with an upgrade, and seek+block requests whose byte lies outside the requested subtree, are not owed a proof (if one is produced it must be accepted)."),
+ "C08": dict(cat="exploration", ref="DESIGN.md §2 C08",
+   technique="bounded-exhaustive exploration of op sequences, crash points and replica fetch orders on the real crate with has()/contiguous_length compared against a set model",
+   text="has(i) for every index below length plus boundary indices in the following bitfield pages, and info().contiguous_length, are compared with the model (i in held set; smallest missing index) in every state of: all small writer histories and their crash images, replica saturations, page-scale macro histories (up to 70 000 one-byte blocks, clears straddling 8192/32768/65536, reopen, crash recovery) and sparse replicas of a 70 000-block writer fetching far-apart indices in every order with reopen after each fetch.",
+   note="Page-scale flushes with >200 storage operations are crash-tested at the first/last 24 operations and ~48 evenly spaced points (stated in the evidence). Trusted: set model, journaling backend."),
 }
 
 PENDING = {
